@@ -21,6 +21,10 @@ const (
 	ClLogin   = "login"
 	ClRead    = "read-only"
 	ClSession = "session-setting"
+	// ASA: 'configure terminal' / 'terminal width 511' / 'end' at the start
+	// of a session - a session setting that the tool can only make in
+	// configuration mode (it becomes part of the running configuration)
+	ClSessionConf = "session-setting-in-config-mode"
 	ClChange  = "config-changing"
 	ClSave    = "save"
 	ClReload  = "reload-control"
@@ -193,12 +197,12 @@ func (s *SSH) classify(l string) string {
 			return ClCleanup
 		case l == "end":
 			if !s.afterWriteTerm {
-				return ClSession
+				return ClSessionConf
 			}
 			return ClCleanup
 		case l == "configure terminal" || l == "terminal width 511":
 			if !s.afterWriteTerm {
-				return ClSession
+				return ClSessionConf
 			}
 			return ClChange
 		}
